@@ -34,7 +34,7 @@ func expiryPredicate(p *eng.Prog) *ssa.Function {
 		}
 		readsDeclared, readsAge := false, false
 		for _, a := range eng.FieldAccesses(f) {
-			if a.Field.Is(setecPkg, "cachedSecret", "Declared") && !a.Write {
+			if a.Field.Is(setecPkg, "cachedSecret", declaredField()) && !a.Write {
 				readsDeclared = true
 			}
 			if a.Field.Is(setecPkg, "Store", storeField("expiryAge")) {
@@ -55,7 +55,7 @@ func runC19(c *eng.Ctx, tier string) {
 	pred := expiryPredicate(p)
 	// R-C19-7: "dropped from the store and its cache only if ...": the cache
 	// document is the whole active set (C13's rule), nothing is filtered out
-	includeOnly(c, "R-C19-7", func(sc *eng.Ctx) { runC13(sc, "quick") }, "R-C13-2", "R-C13-6")
+	includeOnly(c, "R-C19-7", func(sc *eng.Ctx) { runC13(sc, "quick") }, "R-C13-1", "R-C13-2", "R-C13-6")
 	l := moduleLocks(c)
 	poll := anchor(p, setecPkg, "(*Store).poll")
 	applyFns := applyFuncs(c)
@@ -249,7 +249,7 @@ func runC19(c *eng.Ctx, tier string) {
 			var ent ssa.Value
 			for _, cond := range facts {
 				if v, _, isB := cond.Bool(); isB {
-					if fr, base, isF := eng.LoadedField(v); isF && fr.Is(setecPkg, "cachedSecret", "Declared") {
+					if fr, base, isF := eng.LoadedField(v); isF && fr.Is(setecPkg, "cachedSecret", declaredField()) {
 						ent = eng.Origin(base)
 					}
 				}
@@ -271,7 +271,7 @@ func runC19(c *eng.Ctx, tier string) {
 		}
 		for _, cond := range facts {
 			if v, truth, isB := cond.Bool(); isB && !truth {
-				if fr, base, isF := eng.LoadedField(v); isF && fr.Is(setecPkg, "cachedSecret", "Declared") && an.entry(base) {
+				if fr, base, isF := eng.LoadedField(v); isF && fr.Is(setecPkg, "cachedSecret", declaredField()) && an.entry(base) {
 					notDeclared = true
 				}
 			}
@@ -332,6 +332,13 @@ func runC19(c *eng.Ctx, tier string) {
 						if cal := eng.Callee(&la.Call); cal != nil && p.CallGraph() != nil && readsLastAccess(cal) && len(la.Call.Args) == 1 && an.entry(mapv(la.Call.Args[0])) {
 							lastOK = true
 						}
+					}
+					if !lastOK {
+						// (computed in place from the entry's own stamp)
+						lastOK = p.DependsOn(sub.Call.Args[1], func(v ssa.Value) bool {
+							fr3, base3, isF3 := eng.LoadedField(v)
+							return isF3 && fr3.Is(setecPkg, "cachedSecret", "LastAccess") && an.entry(mapv(base3))
+						})
 					}
 					okVal = nowOK && lastOK
 					detail = "now-from-store-clock=" + boolStr(nowOK) + " last-access-of-entry=" + boolStr(lastOK)
@@ -434,8 +441,9 @@ func runC19(c *eng.Ctx, tier string) {
 			switch f.Name() {
 			case "LastAccess":
 				c.Check(contains(shape, `"lastAccess"`), "R-C19-4", nil, f.Pos(), "persistence of cachedSecret.LastAccess", "persisted under the key lastAccess (the rule holds across restarts)", shape)
-			case "Declared":
-				c.Check(!contains(shape, "Declared") && !contains(shape, "declared"), "R-C19-4", nil, f.Pos(), "persistence of cachedSecret.Declared", "not persisted (declaration is a property of the running configuration)", shape)
+			case declaredField():
+				// (an unexported field is never encoded; an exported one needs json:"-")
+				c.Check(!f.Exported() || (!contains(shape, "Declared") && !contains(shape, "declared")), "R-C19-4", nil, f.Pos(), "persistence of cachedSecret.Declared", "not persisted (declaration is a property of the running configuration)", shape)
 			}
 		}
 	}
@@ -454,7 +462,7 @@ func runC19(c *eng.Ctx, tier string) {
 	nDecl := 0
 	for _, f := range p.PkgFuncs(setecPkg) {
 		for _, a := range eng.FieldAccesses(f) {
-			if !a.Field.Is(setecPkg, "cachedSecret", "Declared") || a.Kind != "store" {
+			if !a.Field.Is(setecPkg, "cachedSecret", declaredField()) || a.Kind != "store" {
 				continue
 			}
 			st := a.In.(*ssa.Store)
@@ -530,7 +538,7 @@ func runC19(c *eng.Ctx, tier string) {
 						if rl.ElemOf(lk.Index) {
 							// the list is result #0 of a method of the configuration
 							// (handed down to a helper of the constructor as a parameter)
-							if call, idx := eng.TupleCall(eng.OriginX(rl.Slice)); call != nil && idx == 0 {
+							if call, part := namesPartOf(rl.Slice); call != nil && part == "names" {
 								if cal := eng.Callee(&call.Call); cal != nil && cal.Signature.Recv() != nil && eng.IsNamed(cal.Signature.Recv().Type(), setecPkg, "StoreConfig") {
 									okName = true
 								}
@@ -598,4 +606,18 @@ func impliesCall(v ssa.Value, fn *ssa.Function) bool {
 		}
 	}
 	return false
+}
+
+// declaredField: the "declared" flag of cachedSecret by role: its only
+// boolean field (falls back to the pinned name).
+func declaredField() string {
+	if curProg != nil {
+		if n := structFieldByType(curProg, setecPkg, "cachedSecret", func(t types.Type) bool {
+			b, ok := t.Underlying().(*types.Basic)
+			return ok && b.Kind() == types.Bool
+		}); n != "" {
+			return n
+		}
+	}
+	return "Declared"
 }
